@@ -40,6 +40,11 @@ func aesGCMDecrypt(key, cipherText, nonce []byte) ([]byte, error) {
 		return nil, err
 	}
 
+	// Open panics when the nonce does not have the expected length
+	if len(nonce) != stream.NonceSize() {
+		return nil, errors.Errorf("aes-gcm: bad nonce length; length=%v", len(nonce))
+	}
+
 	outText, err := stream.Open(nil, nonce, cipherText, []byte(gcmAdditionData))
 	if err != nil {
 		return nil, err
